@@ -138,6 +138,31 @@ def _more(o, a, b):
         elif o == "ds_concatenate":
             da.concatenate_ds([ds, ds2], axis="x")
         return watch
+    elif o in ("reshape_indexed_group", "flatten_indexed_group"):
+        # an array whose axis is the plain (sampled) remainder of a grouped axis - its name contains a comma
+        c = a.flatten(("x", "y")).take([0, 2, 3, 5], axis=0, indexing="position")
+        snap = deep_snapshot(c)
+        if o == "reshape_indexed_group":
+            c.newaxis("n").reshape("n", "x,y")
+            c.reshape("x,y", "n")
+        else:
+            c.newaxis("n").flatten()
+        if deep_snapshot(c) != snap:
+            raise AssertionError("%s changed its operand: dims %s" % (o, c.dims))
+    elif o == "reshape_regroup":
+        g = a.newaxis("n").flatten(("n", "x"))
+        snap = deep_snapshot(g)
+        g.reshape("y", "x,n")
+        g.reshape("n", "x", "y")
+        if deep_snapshot(g) != snap:
+            raise AssertionError("reshape changed its grouped operand: dims %s" % (g.dims,))
+    elif o == "unflatten_partial":
+        g = a.newaxis("n").flatten(("n", "x"))
+        snap = deep_snapshot(g)
+        g.unflatten()
+        g.unflatten(axis=0)
+        if deep_snapshot(g) != snap:
+            raise AssertionError("unflatten changed its grouped operand: dims %s" % (g.dims,))
     elif o == "copy_then_set_values":
         c = a.copy()
         c.values[0, 0] = -5
